@@ -274,7 +274,7 @@ def enumerate_states(prop, seed, nrandom):
     wd = tempfile.mkdtemp(prefix="ppverif_equiv_")
     try:
         name = "Equiv%s.cfg" % prop
-        s = open(os.path.join(SPEC_DIR, name)).read().replace("NRandom = 150", "NRandom = %d" % nrandom)
+        s = open(os.path.join(SPEC_DIR, name)).read().replace("NRandom = 10", "NRandom = %d" % nrandom)
         open(os.path.join(wd, name), "w").write(s)
         r = run_tlc("Equiv", name, workdir=wd, dump=True, seed=seed, timeout=3000)
     finally:
@@ -286,3 +286,102 @@ def enumerate_states(prop, seed, nrandom):
         states.append(st)
     states.sort(key=lambda x: repr(sorted(x["cfg"].items())))
     return r, states
+
+
+# ---- the check (shared by checks/c05.py and checks/c23.py) ---------------------------------------------------------------------
+BASE = ("lvl", "ring", "cva", "tmodel", "sn", "layout", "swend")
+SUM_TR = {"split", "par_expand", "fuse_move", "fuse_buses", "ward2int", "xward2int"}
+REN_TR = {"par_expand", "line2imp", "imp2line", "eg2gen", "ward2int", "xward2int"}
+
+
+def feature(cfg):
+    """structural feature class of a case (known-findings key): the code path, and the representation feature it depends on"""
+    tr = cfg["tr"]
+    if tr in ("line2imp", "line_rt", "imp_rt"):
+        return "replace_line_by_impedance|" + ("line_index=position" if cfg["layout"] == "id" else "line_index!=position")
+    if tr == "xward2int":
+        return "replace_xward_by_internal_elements|" + ("sn_mva=1" if cfg["sn"] == 1 else "sn_mva!=1")
+    return tr
+
+
+def _obs_parallel(module, cfgname, cases, parts=6):
+    """tlc_obs over `parts` slices in parallel JVMs (TLC evaluates the invariants of initial states in one thread)"""
+    from concurrent.futures import ThreadPoolExecutor
+    from .obs import tlc_obs
+    n = len(cases)
+    parts = max(1, min(parts, n // 40))
+    size = (n + parts - 1) // parts
+    slices = [(lo, cases[lo:lo + size]) for lo in range(0, n, size)]
+
+    def one(sl):
+        lo, part = sl
+        fails, st = tlc_obs(module, cfgname, part, workers=2, jvm=("-Xmx2g",))
+        return [(name, lo + i) for name, i in fails], st
+    with ThreadPoolExecutor(len(slices)) as ex:
+        res = list(ex.map(one, slices))
+    fails = [f for fs, _ in res for f in fs]
+    return fails, {"states": sum(st["states"] for _, st in res), "generated": sum(st["generated"] for _, st in res)}
+
+
+def run_prop(prop, tier, seed, replay=None):
+    from .common import Verdict, pool_map, use_repo
+    v = Verdict(prop, tier, seed, "exploration")
+    use_repo()
+    if replay:
+        states = [replay["case"]]
+        mstates = mtrans = 1
+    else:
+        from .common import get_pool
+        get_pool(12)                          # workers import pandapower while TLC enumerates the model
+        r, states = enumerate_states(prop, seed, 10 if tier == "quick" else 120)
+        for name, st, raw in r.violations:
+            v.divergence("model-level invariant %s violated" % name, jsonable(st["cfg"]) if isinstance(st, dict) and "cfg" in st else None)
+        mstates, mtrans = r.distinct, r.generated
+        states.sort(key=lambda s: repr([s["cfg"][k] for k in BASE] + [s["cfg"]["tr"] == "merge", s["cfg"]["tr"], s["cfg"]["tgt"]]))
+    cases = pool_map(observe_case, states, chunksize=8)
+    fails, ost = _obs_parallel("EquivObs", "EquivObs%s.cfg" % prop, cases)
+    for name, i in fails:
+        c, cfg = cases[i], cases[i]["cfg"]
+        what = "%s: %s(%s) n=%s perm=%s at=%s on base %s%s" % (name, cfg["tr"], cfg["tgt"], cfg["n"], cfg["perm"], cfg["at"],
+                                                               {k: cfg[k] for k in BASE}, (" -- " + c["err"]) if c["err"] else "")
+        if name.startswith("Conf_"):
+            v.divergence(what, {"cfg": cfg})
+        else:
+            v.violation("%s|%s|%s" % (prop, name, feature(cfg)), what, states[i])
+    good = [c for c in cases if c["okA"] and c["okB"] and c["applied"]]
+    by_tr = {}
+    for c in cases:
+        d = by_tr.setdefault(c["cfg"]["tr"], {"cases": 0, "both_converged": 0})
+        d["cases"] += 1
+        d["both_converged"] += int(c["okA"] and c["okB"])
+    smp = []
+    for c in cases[:400:150]:
+        smp.append({"cfg": c["cfg"], "okA": c["okA"], "okB": c["okB"], "applied": c["applied"],
+                    "bus_vm_A": {b: x["vm"] for b, x in c["A"]["bus"].items()}, "bus_vm_B": {b: x["vm"] for b, x in c["B"].get("bus", {}).items()}})
+    v.coverage = {
+        "evaluations": len(cases),
+        "distinct_nontrivial": len({repr(sorted(c["cfg"].items())) for c in good if c["changed"]}),
+        "rule": "states of Equiv.tla: every (transformation, target) candidate on two corner base variants plus, per transformation, a TLC "
+                "RandomSubset (seeded) of candidates x 192 base variants (load level, ring line, calculate_voltage_angles, trafo_model, sn_mva, index layout, end of "
+                "the open line switch), filtered by the spec's Applicable; non-trivial = the transformed abstract network differs from the "
+                "original, the transformation was carried out and both power flows converged",
+        "states": mstates + ost["states"], "transitions": mtrans + ost["generated"], "traces_validated_against_impl": len(cases),
+        "both_converged": len([c for c in cases if c["okA"] and c["okB"]]),
+        "not_converged": len([c for c in cases if c["applied"] and not (c["okA"] and c["okB"])]),
+        "transformation_failed": len([c for c in cases if not c["applied"]]),
+        "cases_with_sum_entries": len([c for c in good if c["cfg"]["tr"] in SUM_TR]),
+        "cases_with_renamed_entries": len([c for c in good if c["cfg"]["tr"] in REN_TR]),
+        "cases_with_swapped_ends": len([c for c in good if c["cfg"]["tr"] == "swap"]),
+        "cases_with_keys_that_disappear": len([c for c in good if c["cfg"]["tr"] in ("drop_oos", "drop_inactive", "subnet", "fuse_move", "fuse_buses")]),
+        "by_transformation": by_tr, "errors": sorted({c["err"] for c in cases if c["err"]})[:10],
+        "samples": smp, "exhaustive": False,
+    }
+    v.assumptions = ["one template network (9 buses in two islands + one de-energised bus, 7 lines, transformer, impedance, 2 switches, 17 bus "
+                     "elements); parameters are the integers of the abstract network (EquivDef.tla), no jitter",
+                     "tolerance 30 micro-units + 20 ppm per compared value between two solves with tolerance_mva=1e-10; non-converged runs "
+                     "satisfy every relation vacuously and are counted",
+                     "replace_line_by_impedance / replace_impedance_by_line: the new element is located by the RETURNED index (the functions "
+                     "store the old index label in the name column); targets restricted by EquivDef!Applicable (no line switches; lines "
+                     "with capacitance must be left unchanged; ext_grid va_degree = 0; symmetric impedance)",
+                     "structural conformance of the real transformed network with the spec's TNet (Conf_*) is reported as divergence"]
+    return v.finish()
